@@ -312,6 +312,13 @@ func runOnce(sc *Scenario, pick vsched.Picker, keepLog bool, before func(r *vsch
 	rn := &runner{sc: sc, rec: &Rec{}}
 	hdr := rn.setup()
 	defer clearPin()
+	// the evicted callback closes over the runner, which holds the cache: a cycle through an object with a finalizer (the
+	// cache wrapper) is never collected, so every run would leak its cache. Drop the callback when the run is over.
+	defer func() {
+		if rn.c != nil {
+			rn.c.SetEvictedCallback(nil)
+		}
+	}()
 	rn.rec.add(hdr)
 	for _, op := range sc.Preload {
 		rn.call(0, op)
